@@ -10,9 +10,11 @@ PROP = dict(
         # "through every sequence of operations the STAGES perform on a seed's tree": the operation sequences above are issued by the
         # driver; here the real preprocess / postprocess / finisher issue them (driver of C01, scripted archiver), and the tree is
         # judged at every stage boundary: consistency check, unique ids, complete-iff-nothing-pending, completion reached
-        dict(driver="pass", corpus_from="C01", quick=300, thorough=10000, shard=50, noshrink=True, only_monitors=[0, 1, 2, 3],
+        dict(driver="pass", corpus_from="C01", quick=300, thorough=10000, shard=50, noshrink=True, only_monitors=[0, 1, 2, 3, 7],
              monitors=["completion_reached_exactly_once", "wellformed_at_stage_boundaries", "finish_iff_tree_done",
-                       "one_node_per_url_after_the_stages_dedupe", "(C06)", "(C06)", "(C01)", "(C01)", "(C01)"]),
+                       "one_node_per_url_after_the_stages_dedupe", "(C06)", "(C06)", "(C01)",
+                       "status_compatible_with_structure: a node that was given a redirect target is GotRedirected (not GotChildren) and has the target as child",
+                       "(C01)"]),
     ],
     partial="childrenMu locking is not modelled (a seed is owned by one goroutine at a time except inside archive(), see C01); "
             "re-parenting an existing child through AddChild is not modelled (the stages only add new items).",
